@@ -4,7 +4,10 @@ extern crate serde_derive;
 mod blockrig;
 mod brokerdrv;
 mod resprig;
+mod routerig;
+mod cluster;
 mod sched;
+mod simnet;
 
 use std::collections::HashMap;
 use std::io::{BufWriter, Write};
@@ -141,6 +144,15 @@ fn cmd_resp_cases(m: &HashMap<String, String>) -> i32 {
     0
 }
 
+fn cmd_routing_runs(m: &HashMap<String, String>) -> i32 {
+    let out = m.get("out").expect("--out");
+    let f = std::fs::File::create(out).expect("create");
+    let mut w = BufWriter::new(f);
+    routerig::run_many(&mut w, geti(m, "count", 2u64), geti(m, "seed", 1u64), m.contains_key("all-slots"));
+    w.flush().ok();
+    0
+}
+
 fn main() {
     let args: Vec<String> = std::env::args().collect();
     if args.len() < 2 {
@@ -157,6 +169,7 @@ fn main() {
         "broker-replay" => cmd_broker_replay(&m),
         "blocking-runs" => cmd_blocking_runs(&m),
         "resp-cases" => cmd_resp_cases(&m),
+        "routing-runs" => cmd_routing_runs(&m),
         other => {
             eprintln!("unknown subcommand {}", other);
             2
